@@ -18,7 +18,7 @@ RULE = ('Gaussian-copula tables (2..5 base columns, 9 marginal kinds incl. integ
         'Non-trivial: >= 3 columns or a degenerate column pair; distinct = distinct generated case.')
 ASSUMPTIONS = [
     'the fitted marginal CDFs are taken from the public univariates of the fitted model (their correctness is C03/C04)',
-    'ridge: an entry may differ from the recomputation by EPSILON on the diagonal only if the recomputed matrix has condition number > 1e15',
+    'ridge: an entry may differ from the recomputation by EPSILON on the diagonal only if the recomputed matrix has condition number > 1e12 (near-singular: the exact threshold 1/eps is numerical noise there)',
 ]
 EPS32 = float(np.finfo(np.float32).eps)
 
@@ -34,7 +34,7 @@ def strategy(allow_default):
                                      allow_default=allow_default))
         if allow_default:
             table['n'] = min(table['n'], 300)
-        return {'table': table, 'derived': ops, 'config': cfg}
+        return {'table': table, 'derived': ops, 'config': cfg, 'prefit_seed': draw(st.one_of(st.none(), st.none(), S.SEEDS))}
 
     return cases()
 
@@ -47,6 +47,9 @@ def oracle(case):
     names = list(df.columns)
     d = len(names)
     model = M.build_gaussian(case['config'], names)
+    if case.get('prefit_seed') is not None:
+        # history: the same object was fitted on another table (same schema) before
+        value(model.fit, M.variant_table(df, case['prefit_seed']), what='GaussianMultivariate.fit (earlier table)')
     value(model.fit, df.copy(), what='GaussianMultivariate.fit')
     corr = model.correlation
     require(isinstance(corr, pd.DataFrame), 'correlation is %s, not a DataFrame' % type(corr).__name__, tag='type')
@@ -86,7 +89,9 @@ def oracle(case):
     cond = np.linalg.cond(mine)
     diff_plain = np.max(np.abs(C - mine))
     diff_ridge = np.max(np.abs(C - (mine + EPS32 * np.eye(d))))
-    ok = diff_plain <= 1e-9 or (cond > 1e15 and diff_ridge <= 1e-9)
+    # the ridge decision (cond > 1/eps) is numerical noise for near-singular matrices: the condition number of the
+    # library's matrix and of the recomputed one differ by orders of magnitude there, so the ridge is accepted from 1e12 on
+    ok = diff_plain <= 1e-9 or (cond > 1e12 and diff_ridge <= 1e-9)
     require(ok, 'correlation differs from Pearson of normal scores by %.3g (with ridge %.3g, cond %.3g)' % (diff_plain, diff_ridge, cond),
             tag='recompute', detail={'cond': float(cond)})
     target(float(min(diff_plain, diff_ridge) / 1e-9), label='recompute err/tol')
@@ -108,7 +113,7 @@ def oracle(case):
     pdf = np.asarray(value(model.probability_density, df.head(5), what='probability_density'), dtype=float)
     require(pdf.shape == (min(5, len(df)),) and np.all(np.isfinite(pdf)) and np.all(pdf >= 0), 'probability_density(head) = %r' % pdf, tag='pdf')
     degenerate = cond > 1e12 or flat.any()
-    cls = ['d=%d' % d, 'config:' + case['config']['mode']]
+    cls = ['d=%d' % d, 'config:' + case['config']['mode'], 'refitted-model' if case.get('prefit_seed') is not None else 'fresh-model']
     if cond > 1e15:
         cls.append('singular')
     if must_regularise:
